@@ -132,7 +132,7 @@ def check(run, replay):
     vh8 = vlib.build_harness("C08")
 
     # ---- X1a: lexer model vs simplecpp on the same bytes
-    n = 4000 if quick else 120000
+    n = 4000 if quick else 60000
     corpus = [b"a+b", b"ab  cd\n  e", b"a /* x\ny */ b\n c", b"a\\\nb c\n d", b"x<<=y>>=z ++1 a++ +b", b"a // c\n b", b"a\r\nb", b"a\x80",
               b"a ... b . . .", b"a/", b"/*", b"/*/", b"a &&& b ||| c -> d ::: e", b"a\\  \n b /* c\n */ d\n e", b"a\tb\x0cc\x0bd", b"", b"\n\n", b">>>=", b"a===b"]
     cases = [[c] for c in dict.fromkeys(corpus + [gen_soup(rng) for _ in range(n)])]
@@ -150,7 +150,7 @@ def check(run, replay):
                        "how": "echo '%s' | build/harness/vh_c05 lex" % vlib.enc_case(c)}, found_input=False)
 
     # ---- X1b: the same through `cppcheck --dump` <rawtokens> (comments are part of rawtokens)
-    nb = 40 if quick else 600
+    nb = 40 if quick else 400
     sample = [c for c in cases if c[0].strip() and b"\x80" not in c[0]][:nb]
     _, mo, _ = vlib.run_lines([model], [vlib.enc_case(["lex"] + c) for c in sample])
     for k, (c, ml) in enumerate(zip(sample, mo)):
@@ -194,15 +194,15 @@ def check(run, replay):
     stats["ids"] = set()
     progs = []
     sd = os.path.join(vlib.REPO, "samples")
-    for d in sorted(os.listdir(sd))[:(4 if quick else 999)]:
+    for d in sorted(os.listdir(sd))[:(6 if quick else 999)]:
         for f in sorted(os.listdir(os.path.join(sd, d))):
             if f.endswith((".c", ".cpp")):
                 progs.append((f.rsplit(".", 1)[1], open(os.path.join(sd, d, f), encoding="latin-1").read(), "samples/%s/%s" % (d, f)))
-    ngen = 6 if quick else 500
+    ngen = 9 if quick else 150
     for k in range(ngen):
         lang, src, picks = GP.gen_program(rng)
         progs.append(("cpp" if lang == "cpp" else "c", src, "templates%s" % picks))
-    for k in range(3 if quick else 200):
+    for k in range(4 if quick else 60):
         cpp = k % 2 == 1
         src, feats = NC.gen_program(rng, cpp)
         progs.append(("cpp" if cpp else "c", src, "scoped"))
@@ -218,7 +218,8 @@ def check(run, replay):
         p0 = write(os.path.join(WORK, "x3_names.%s" % ext), src)
         names = RW.main_file_names(p0, ext == "cpp", toks)
         if names:
-            variants.append(("rename", src, RW.rw_rename(rng, toks, names, rng.choice(["suffix", "short", "random"]))))
+            for style in ("suffix", "short", "random"):
+                variants.append(("rename", src, RW.rw_rename(rng, toks, names, style)))
         srcn = RW.normalize_layout(toks)
         tn = RW.tokenize(srcn)
         r = RW.rw_reorder(rng, tn) if tn else None
